@@ -137,6 +137,32 @@ pub fn byte_iters(r: &mut Runner) {
         _ => (r.scaled(400), 8usize),
     };
     byte_iters_boundary(r, &apis, nsets, maxm);
+    // (2b) long haystacks with matches recurring at a fixed period (the same
+    // lane of every vector), walked from both ends
+    for (k, &len) in [8192usize, 8223, 16389].iter().enumerate() {
+        for &per in &[1usize, 16, 32, 33, 255] {
+            unit += 1;
+            if !r.mine(unit) {
+                continue;
+            }
+            let nset = NEEDLE_SETS[(k + per) % NEEDLE_SETS.len()];
+            buf.clear();
+            for i in 0..len {
+                buf.push(if i % per == 0 { nset[(i / per) % 3] } else { b'm' });
+            }
+            for &api in &apis {
+                let m = crate::oracle::count(&buf, &nset[..api.n as usize]);
+                ops.clear();
+                for t in 0..(m + 2).min(1200) {
+                    ops.push(if t % 3 == 0 { b'b' } else { b'n' });
+                    if t % 97 == 5 {
+                        ops.push(b'k');
+                    }
+                }
+                r.run(api, &buf, &nset, [0; 4], &ops, Place::GuardR, Place::Heap, true);
+            }
+        }
+    }
     // (3) long haystacks, dense and sparse, random interleavings
     let trials = match r.tier {
         Tier::Quick => r.scaled(60),
